@@ -13,7 +13,7 @@ import (
 // provider i; the forward of free name k gets row k).
 
 func init() {
-	register(&Rule{Name: "R-DIM-INDEX", Min: 40,
+	register(&Rule{Name: "R-DIM-INDEX", Min: 25,
 		Doc: "in the interpreter (package process, transition files): inside a loop whose index ranges over the length of a collection S, every element access to S - or to a collection allocated with S's length, or to the rows of a table whose rows were allocated with S's length - uses that loop's index; a constant or the index of a loop over a different collection addresses the same element for every iteration (all copies of a duplicated process sharing one channel, every forward providing the first row, …)",
 		Run: runDimIndex})
 }
